@@ -21,14 +21,15 @@ FMT = {"UINT8": "B", "INT8": "b", "UINT16": "H", "INT16": "h", "UINT32": "I", "I
 SIZE = {"UINT8": 1, "INT8": 1, "UINT16": 2, "INT16": 2, "UINT32": 4, "INT32": 4, "UINT64": 8, "INT64": 8}
 EXT = {"none": "", "gzip": ".gz", "bzip2": ".bz2", "lzma": ".xz", "sie": ".sie", "text": ".txt"}
 MODEL_ENC = {"none": "r", "gzip": "r", "bzip2": "b", "text": "t"}
-FLAGS = ["fix_bz_rewind", "fix_bz_eof", "fix_here", "fix_text_pseudo", "fix_leak", "fix_negseek", "fix_phase_sign"]
+FLAGS = ["fix_bz_rewind", "fix_bz_eof", "fix_here", "fix_text_pseudo", "fix_leak", "fix_negseek", "fix_phase_sign", "fix_bz_err"]
 KEYS = {"fix_bz_rewind": "C02/bzip2/seek-to-before-window",
         "fix_bz_eof": "C02/bzip2/read-reaching-eof",
         "fix_here": "C02/phase/input-start-minus-one-read-as-GD_HERE",
         "fix_text_pseudo": "C02/text/pseudo-position-before-frameoffset",
         "fix_leak": "C02/recurse-level-leak-on-GD_E_RANGE",
         "fix_negseek": "C02/raw/all-padding-read-seeks-negative",
-        "fix_phase_sign": "C17/phase/pointer-shift-applied-with-wrong-sign"}
+        "fix_phase_sign": "C17/phase/pointer-shift-applied-with-wrong-sign",
+        "fix_bz_err": "C02/bzip2/decoder-error-leaves-stale-position-and-overwritten-window"}
 E_RANGE, E_RECURSE, E_DOMAIN, E_IO = -8, -10, -28, -5
 ALL_TYPES = ["i8", "u8", "i16", "u16", "i32", "u32", "i64", "u64", "f32", "f64", "c64", "c128"]
 FLOAT_TYPES = ("f32", "f64", "c64", "c128")
@@ -99,6 +100,14 @@ def make_dirfile(d, case):
     for r in case["raws"]:
         t += "%s RAW %s %d\n" % (r["name"], r["type"], case.get("spf", 1))
         write_raw(d, case["enc"], r)
+    dmg = case.get("damage")
+    if dmg:
+        # a damaged compressed data file: ("flip", offset) xors one byte (negative = from the end), ("trunc", n) cuts it
+        fp_ = os.path.join(d, case["raws"][0]["name"] + EXT[case["enc"]])
+        b = bytearray(open(fp_, "rb").read())
+        if dmg[0] == "flip" and b: b[dmg[1] % len(b)] ^= 0x5A
+        elif dmg[0] == "trunc": b = b[:max(1, min(len(b) - 1, dmg[1]))]
+        open(fp_, "wb").write(bytes(b))
     for name, v in case.get("consts", {}).items():
         t += "%s CONST INT64 %d\n" % (name, v)
     for f in case.get("derived", []):
@@ -311,6 +320,51 @@ def run_impl(exe, d, case, rw=False, timeout=20):
     return rc, out, res[1:] if res else []     # drop the "o" line
 
 
+def gen_damaged(rng):
+    """a history with failing calls over a damaged compressed data file"""
+    enc = rng.choice(["bzip2", "bzip2", "bzip2", "gzip", "lzma"])
+    t = rng.choice(["UINT8", "UINT8", "INT16"])
+    n = rng.choice([40, 64, 100, 128, 300, 700, 1000, 1500])
+    if enc in ("gzip", "lzma") and rng.random() < 0.25:
+        n = rng.choice([20000, 40000])     # beyond zlib's / the xz reader's internal buffers: errors arrive in mid-history
+    lo, hi = (0, 255) if t == "UINT8" else (-400, 400)
+    vals = [rng.randint(lo, hi) for _ in range(n)] if rng.random() < 0.7 else [lo + (k * 7) % (hi - lo + 1) for k in range(n)]
+    raws = [dict(name="a", type=t, vals=vals)]
+    derived = []
+    if rng.random() < 0.3: derived.append(dict(name="p", kind="P", shift=rng.choice([-1, 1, 2]), plain=True, **{"in": "a"}))
+    kind = rng.random()
+    if enc == "bzip2" and kind < 0.45: dmg = ("flip", rng.choice([10, 11, 12, 13])); dec = "crc"     # stored block CRC
+    elif kind < 0.6: dmg = ("flip", -rng.randint(1, 12)); dec = None                                  # trailer / stream CRC / size
+    elif kind < 0.8: dmg = ("flip", rng.randint(14, 400)); dec = None                                 # somewhere in the data
+    else: dmg = ("trunc", rng.randint(8, 600)); dec = None
+    case = dict(enc=enc, spf=1, foff=rng.choice([0, 0, 2]), raws=raws, derived=derived, damage=dmg)
+    if dec: case["dec"] = dec
+    fields = ["a"] + [f["name"] for f in derived]
+    ops = []
+    for _ in range(rng.randint(5, 22)):
+        f = rng.choice(fields); u = rng.random()
+        if u < 0.7:
+            st = rng.choice([0, rng.randint(0, n), rng.randint(0, n), max(0, n - rng.randint(0, 30)), n + rng.randint(0, 5), 5 * n])
+            ops.append(("g", f, st, rng.choice([1, 3, 5, 20, 70, 200] + ([3000] if n > 5000 else [])), "i64"))
+        elif u < 0.8: ops.append(("s", f, rng.choice([rng.randint(0, n), 5 * n]), "S"))
+        elif u < 0.9: ops.append(("t", f))
+        else: ops.append((rng.choice("cf"), rng.choice([f, "*"])))
+        if rng.random() < 0.3:
+            # where does the handle say it is after that call (failed or not), and is that where it reads from
+            ops.append(("t", f)); ops.append(("g", f, "H", rng.choice([1, 3, 20, 70]), "i64"))
+    case["ops"] = ops
+    return case
+
+
+def fresh_answers(exe, d, case, idxs, asks=None):
+    """what a fresh handle returns for each of the reads case.ops[i] (or asks[i]), i in idxs (one reopen per read)"""
+    lines = ["o 0"]
+    for i in idxs: lines += ["x", op_line((asks or {}).get(i, case["ops"][i]))]
+    rc, out = vlib.sh([exe, d], inp=("\n".join(lines) + "\n").encode(), timeout=30)
+    ls = [l for l in out.split("\n") if l.startswith("g ")]
+    return {i: impl_canon(l.split()) for i, l in zip(idxs, ls)} if len(ls) == len(idxs) else {}
+
+
 def in_model(case, strict=True):
     if case["enc"] not in MODEL_ENC: return False
     if any(f["kind"] not in "PLBM" for f in case.get("derived", [])): return False
@@ -358,7 +412,8 @@ def model_line(case, cfg, eager, auto_events=None):
         for r in (auto_events or {}).get(i, []):
             calls.append("a,%d" % r); opmap.append(None)
     bits = "".join("1" if cfg.get(f) else "0" for f in FLAGS)
-    return "%s %d %d|%s|%s|%s" % (bits, BZBUF, 1 if eager else 0, ";".join(raws), ";".join(fields), ";".join(calls)), opmap
+    return "%s %d %d%s|%s|%s|%s" % (bits, BZBUF, 1 if eager else 0, " crc" if case.get("dec") == "crc" else "",
+                                     ";".join(raws), ";".join(fields), ";".join(calls)), opmap
 
 
 def run_model(drv, lines):
@@ -858,6 +913,13 @@ def _sie_past_eof(case, i):
     return False
 
 
+DAMAGE_WITNESS = dict(
+    enc="bzip2", spf=1, foff=0, raws=[dict(name="a", type="UINT8", vals=[(37 * k * k + 11 * k) % 251 for k in range(1000)])],
+    derived=[], damage=("flip", 10), dec="crc",
+    ops=[("g", "a", 0, 10, "i64"), ("g", "a", 5000, 4, "i64"), ("g", "a", 10, 5, "i64"),
+         ("g", "a", 950, 70, "i64"), ("g", "a", 900, 5, "i64")])
+
+
 def load_staged_known(chk):
     """vlib.load_known reads known_findings.d/*.json itself now; kept as a no-op for C17.py"""
     return
@@ -1008,6 +1070,62 @@ def main():
     for c in cases[:3]:
         chk.sample({"enc": c["enc"], "foff": c["foff"], "raws": [(r["name"], r["type"], len(r["vals"])) for r in c["raws"]],
                     "derived": c["derived"], "ops": c["ops"][:6]})
+
+    # ---- 2c. damaged compressed streams: histories with failing calls; "the value of sample k equals what a
+    #          fresh handle returns for k, whenever both calls succeed"; bzip2 block-CRC damage also against the model
+    BZERR_KEY = KEYS["fix_bz_err"]
+    ndam = 150 if not chk.thorough else 2500
+    dcases = [gen_damaged(rng) for _ in range(ndam)]
+    dres = []
+    dmodel = []
+    for k, case in enumerate([DAMAGE_WITNESS] + dcases):
+        dd = os.path.join(work, "dmg"); make_dirfile(dd, case)
+        rc1, out, res = run_impl(exe, dd, case)
+        evals += len(res)
+        okreads = []; asks = {}
+        for i, (o, (tok, _)) in enumerate(zip(case["ops"], res)):
+            if o[0] != "g" or tok[0] != "g" or tok[2] != "0": continue
+            if o[2] == "H":
+                # a GD_HERE read is judged when the call before it was a successful gd_tell of the same field:
+                # it must return what a fresh handle returns for an absolute read at the position told
+                pt = res[i - 1][0] if i > 0 and case["ops"][i - 1] == ("t", o[1]) else None
+                if not pt or pt[0] != "t" or pt[2] != "0" or int(pt[1]) < 0: continue
+                asks[i] = ("g", o[1], int(pt[1]), o[3], o[4])
+            okreads.append(i)
+        fresh = fresh_answers(exe, dd, case, okreads, asks) if okreads else {}
+        bad = [(i, fresh[i], impl_canon(res[i][0])) for i in okreads
+               if i in fresh and not fresh[i].startswith("E") and fresh[i] != impl_canon(res[i][0])]
+        if len(res) != len(case["ops"]):
+            bad.append((len(res), "an answer", "process died rc=%d: %s" % (rc1, out[-200:].replace("\n", " "))))
+        dres.append((case, res, bad))
+        if case.get("dec") == "crc" and len(res) == len(case["ops"]): dmodel.append((case, res))
+    dm_out, dm_maps = model_outputs(drv, dmodel, cfg, True) if dmodel else ([], [])
+    dm_out0, _ = model_outputs(drv, dmodel, cfg, False) if dmodel else ([], [])
+    dmodel_bad = []
+    for (case, res), mo, mo0, opmap in zip(dmodel, dm_out, dm_out0, dm_maps):
+        dmm = compare_model(case, res, mo, opmap)
+        if dmm is not None and compare_model(case, res, mo0, opmap) is not None:
+            dmodel_bad.append((case, res, dmm))
+    chk.cov["damaged_stream_histories"] = len(dres)
+    chk.cov["damaged_stream_histories_in_model"] = len(dmodel)
+    dreported = set()
+    for case, res, bad in dres:
+        if not bad: continue
+        i, exp, got = bad[0]
+        key = BZERR_KEY if case["enc"] == "bzip2" else "C02/damaged-stream/%s/read-depends-on-earlier-failed-call" % case["enc"]
+        if key in dreported: continue
+        dreported.add(key); found_any = True
+        chk.violation(key, "%s: %s file damaged by %s: history op %d %s returns %s, a fresh handle returns %s" % (
+            key, case["enc"], case["damage"], i, case["ops"][i] if i < len(case["ops"]) else "", got[:80], exp[:80]),
+            {"kind": "impl-vs-spec", "spec": "fresh handle", "case": case, "op_index": i, "expected": exp, "got": got,
+             "how": "make_dirfile applies case.damage to the data file; harness/C02/gdhist.c; fresh = 'x' + the same read"})
+    for case, res, (i, m0, got) in dmodel_bad[:2]:
+        if any(c is case and b and b[0][0] <= i for c, _, b in dres): continue
+        chk.violation("model/damaged-bzip2/%s" % case["ops"][i][0],
+                      "correspondence broken on a bzip2 stream with a wrong block CRC: op %d %s: implementation %s, model %s" % (
+                          i, case["ops"][i], got[:100], m0[:100]),
+                      {"kind": "model-vs-impl", "case": case, "op_index": i, "impl": got, "model": m0,
+                       "theorem": "bz_read/bz_seek error exits of coq/C02/Model.v (dec_bz2_crc) no longer describe bzip.c"}, found=False)
 
     # ---- 3. decide
     reported = set()
